@@ -55,6 +55,17 @@ def clo_shards(tier):
         for e in (edge_sets[3], edge_sets[4], edge_sets[5], edge_sets[6], [0, 1, 0, 0, 1, 1]):
             for pl in ([3, 3], [1, 3], [0, 3], [2, 3]):
                 out.append({"edges": e, "place": pl, "kinds": ["msg", "msg"], "layout": "tree"})
+        # every file lists its imports in the opposite order: an already-read file in another directory is met first, a new
+        # relative import follows it (the working directory must be back where it was)
+        for e in ([1, 1, 1, 1, 1, 0], [1, 1, 1, 1, 1, 1], [1, 1, 0, 1, 1, 0], [1, 1, 1, 0, 1, 1]):
+            for pl in ([1, 3], [2, 2]):
+                out.append({"edges": e, "place": pl, "kinds": ["msg", "msg"], "layout": "tree", "rev": 1})
+                out.append({"edges": e, "place": pl, "kinds": ["msg", "signal"], "layout": "tree", "rev": 1, "twice": 1})
+        # range rules across the closure: core definitions imported first, ids over all ints, one file named core_defs.yaml
+        for kinds in (["module", "module"], ["host", "msg"]):
+            for rev in (0, 1):
+                for pl in ([1, 3], [0, 1]):
+                    out.append({"edges": [1, 1, 1, 1, 1, 0], "place": pl, "kinds": kinds, "layout": "tree_core", "rev": rev, "coredefs": 1})
     else:
         edge_sets = [list(b) for b in itertools.product((0, 1), repeat=6)]
         places = [[i, j] for i in range(4) for j in range(4)]
@@ -64,6 +75,11 @@ def clo_shards(tier):
                 if sum(e) >= 3 and pl[0] <= pl[1]:
                     out.append({"edges": e, "place": pl, "kinds": ["msg", "signal"], "twice": 1})
                     out.append({"edges": e, "place": pl, "kinds": ["msg", "msg"], "layout": "tree"})
+                    out.append({"edges": e, "place": pl, "kinds": ["msg", "msg"], "layout": "tree", "rev": 1})
+                if sum(e) >= 4 and pl[0] <= pl[1]:
+                    for lay in ("tree", "tree_core"):
+                        for kinds in (["module", "module"], ["host", "msg"]):
+                            out.append({"edges": e, "place": pl, "kinds": kinds, "layout": lay, "rev": (sum(e) + pl[0]) % 2, "coredefs": 1})
         for kinds in (["module", "module"], ["const", "struct"], ["host", "host"], ["struct", "msg"], ["signal", "signal"]):
             for e in edge_sets[::3]:
                 for pl in ([1, 3], [0, 2], [2, 2], [3, 1]):
@@ -84,7 +100,7 @@ def obligations(tier):
                    symbolic="the id of the later definition 0..10000"),
         Obligation("closure_conflict_iff_collision_read_once", "harness.c12_closure", "clo", clo_shards(tier), cond_timeout=400, path_timeout=60,
                    reach="clo_reach", reach_shards=[{"edges": [1, 1, 1, 1, 1, 1], "place": [1, 3], "kinds": ["msg", "signal"]}], encoded=ENC2,
-                   bounds="files in one directory and spread over sibling directories (imports spelled with ..); import graphs over a root and 3 files (%s edge sets incl. diamonds and a cycle, a repeated import), two items placed in any two files (%s placements)" % (("8 selected", "7") if tier == "quick" else ("all 64", "all 16")),
+                   bounds="files in one directory and spread over directories of different depth (imports spelled with .., both import-list orders); with and without the package core definitions imported first (then module/host/message ids over all ints and one file named core_defs.yaml); import graphs over a root and 3 files (%s edge sets incl. diamonds and a cycle, a repeated import), two items placed in any two files (%s placements)" % (("8 selected", "7") if tier == "quick" else ("all 64", "all 16")),
                    symbolic="both ids (valid range of the kind), both name indices"),
     ]
 
